@@ -1,7 +1,7 @@
 #!/bin/bash
 # Developer helper: (re)create the generically rewritten copies of /repo/oqupy under /tmp/gen
 # (quick targets for `./check CNN --repo /tmp/gen/<name> --no-selftest`).
-for t in rename_locals flip_branches swap_comparisons reverse_kwargs hoist_arguments keyword_arguments inline_temporaries index_unpacking all_rewrites extract_blocks conditional_expressions default_first return_in_branches loops_to_comprehensions comprehensions_to_loops; do
+for t in rename_locals flip_branches swap_comparisons reverse_kwargs hoist_arguments keyword_arguments inline_temporaries index_unpacking all_rewrites extract_blocks conditional_expressions default_first return_in_branches loops_to_comprehensions comprehensions_to_loops counter_updates; do
   rm -rf /tmp/gen/$t; mkdir -p /tmp/gen/$t; cp -r /repo/oqupy /tmp/gen/$t/
   /venv/bin/python -c "
 import sys; sys.path.insert(0,'/verif')
